@@ -45,6 +45,22 @@ def main():
         json.dump(base, f, indent=1)
         f.write("\n")
     print("MANIFEST.json: %d checks, %d not applicable" % (len(checks), len(na)))
+    # merged known-findings file
+    allf = []
+    fd = os.path.join(VERIF, "findings")
+    for pid in props:
+        fp = os.path.join(fd, pid + ".json")
+        if os.path.exists(fp):
+            for k in json.load(open(fp)).get("findings", []):
+                k = dict(k)
+                k.setdefault("property", pid)
+                allf.append(k)
+    with open(os.path.join(VERIF, "known_findings.json"), "w") as f:
+        json.dump({"comment": "merged from findings/<id>.json by tools/mkmanifest.py; status known = recorded genuine defect "
+                              "(check prints KNOWN-FINDING and exits 0), status fixed = repaired by the named fix: commit (suppresses nothing)",
+                   "findings": allf}, f, indent=1)
+        f.write("\n")
+    print("known_findings.json: %d entries" % len(allf))
 
 
 if __name__ == "__main__":
